@@ -96,7 +96,9 @@ def EXTRACT(repo):
     nodes, weights = table("GAUSS_QUAD_NODES"), table("GAUSS_QUAD_WEIGHTS")
     if not re.search(r"\(0\.\.5\)\s*\.map\(\|i\|\s*\{\s*let dx = xr \* GAUSS_QUAD_NODES\[i\];\s*"
                      r"GAUSS_QUAD_WEIGHTS\[i\] \* \(f\(xm \+ dx\) \+ f\(xm - dx\)\)", src):
-        raise ValueError("quad5 body no longer has the expected shape")
+        _drift = ["quad5 body no longer has the textual shape the model was written against (tables are still regenerated)"]
+    else:
+        _drift = []
 
     def views(lits):
         bits, nums, exps = [], [], []
@@ -133,6 +135,9 @@ def weightExp : List Nat := %s
 
 end Cv.C07Tables
 """ % (", ".join(nodes), L(nb, hx), ", ".join(weights), L(wb, hx), L(nn, str), L(ne, str), L(wn, str), L(we, str))
+    if _drift:
+        from .common import SourceDrift
+        raise SourceDrift(" || ".join(_drift), {"Compute/Generated/C07Tables.lean": out})
     return {"Compute/Generated/C07Tables.lean": out}
 
 
